@@ -5,7 +5,7 @@ CONSTANTS
   Filter = {"a","b"}
   MaxTx = 3
   MaxFaults = 1
-  MaxOrphans = 1
+  MaxOrphans = 0
   OrphanTx = {1}
   AllowDrop = TRUE
   AllowSweep = TRUE
@@ -16,7 +16,7 @@ CONSTANTS
   ChkCompare = TRUE
   ApplyDropFrame = FALSE
   Wire = 2
-  Emit = "final"
+  Emit = "none"
 VIEW view
 INVARIANTS ChkIsImage OnHistory FilterRespected NoFrameOutsideFilter QuiescentConverged DropFollows EmitInv
 
